@@ -45,10 +45,11 @@ CAT = [NULL, BOOL, I("I8"), I("U8"), I("I16"), I("U16"), I("I32"), I("U32"), I("
        VEC(I("I32")), VEC(I("U32")), VEC(I("I64")), VEC(I("U64")), VEC(DBL), VEC(STR), VEC(NULL),
        VEC(VEC(I("I32"))), VEC(VEC(STR)), VEC(MAP(I("I32"))),
        MAP(BOOL), MAP(I("I32")), MAP(I("U64")), MAP(DBL), MAP(STR), MAP(VEC(I("I32"))), MAP(MAP(STR)),
-       INNER, MIX, VEC(INNER), MAP(INNER), ATTR, VEC(ATTR), ATTRONLY, VEC(ATTRONLY)]
+       INNER, MIX, VEC(INNER), MAP(INNER), ATTR, VEC(ATTR), ATTRONLY, VEC(ATTRONLY),
+       STR, STR, STR, VEC(STR), MAP(STR)]          # u16string, u32string, wstring, vector<u16string>, map<string,u32string>
 
 JSON_TYPES = [i for i in range(len(CAT)) if i not in (33, 34, 35, 36)]
-XML_TYPES = [i for i in range(12, len(CAT))]
+XML_TYPES = [i for i in range(12, len(CAT)) if i not in (37, 38, 39)]
 ENCODINGS = ["utf8", "utf16le", "utf16be", "utf32le", "utf32be"]
 PYCODEC = {"utf8": "utf-8", "utf16le": "utf-16-le", "utf16be": "utf-16-be", "utf32le": "utf-32-le", "utf32be": "utf-32-be"}
 BOM = {"utf8": b"\xef\xbb\xbf", "utf16le": b"\xff\xfe", "utf16be": b"\xfe\xff", "utf32le": b"\xff\xfe\x00\x00", "utf32be": b"\x00\x00\xfe\xff"}
@@ -691,7 +692,7 @@ def nontrivial_value(ty, v):
 
 
 def gen_stage1(rng, tier, arch):
-    n = {"quick": 1400, "thorough": 16000}[tier] if arch == "json" else {"quick": 1100, "thorough": 12000}[tier]
+    n = {"quick": 5000, "thorough": 60000}[tier] if arch == "json" else {"quick": 4000, "thorough": 48000}[tier]
     types = JSON_TYPES if arch == "json" else XML_TYPES
     cases = []
     for i in range(n):
@@ -881,7 +882,7 @@ def run_checks(prop, ctx, vlib, want=("C08", "C01")):
 
     samples = [dict(case=c["line"], implementation=(c["save"][:200] + " | " + c["load"][:120]), model=c.get("mchk")) for c in cases[:2]]
     samples += r3["samples"]
-    rule = ("typed values from a 35-entry catalogue of C++ targets (scalars at root, vector<T>, map<string,T>, classes with members of every kind, nested; "
+    rule = ("typed values from a 42-entry catalogue of C++ targets (scalars at root, vector<T>, map<string,T>, classes with members of every kind, nested; "
             "XML attributes) with strings over all of Unicode (quotes, backslashes, C0 controls, markup characters, astral planes, white space), integer and double "
             "extremes, empty and nested containers, null x {memory, stream} x 5 encodings x BOM x {compact, pretty x {space, tab} x count 0..8}: saved and loaded back "
             "by the implementation (jx.rt), every produced document decoded per configuration and parsed by the extracted Coq reference parser and compared with the "
@@ -941,7 +942,7 @@ def int_targets_hit(ty, dom_a, dom_b):
 def stage3_json(vlib, impl, model, rng, tier, docs, known_ids, want, bump, stats):
     failing, diffs, notes, samples = [], [], [], []
     per_doc = 2 if tier == "quick" else 4
-    max_docs = 900 if tier == "quick" else 9000
+    max_docs = 3000 if tier == "quick" else 36000
     docs = docs[:max_docs]
     items = []          # one per load: dict(kind, tyi, medium, enc, bytes, origin, opts)
     parse_lines, parse_expect = [], []
@@ -971,7 +972,7 @@ def stage3_json(vlib, impl, model, rng, tier, docs, known_ids, want, bump, stats
             parse_lines.append("m.parse json utf8 %s" % (t2.encode("utf-8").hex() or "-"))
             parse_expect.append((dom, t2))
     # mutated texts: the reference parser against Python's json (acceptance set)
-    nm = 600 if tier == "quick" else 6000
+    nm = 2000 if tier == "quick" else 24000
     for _ in range(nm if docs else 0):
         c = rng.choice(docs)
         if "dom" not in c:
@@ -1179,6 +1180,10 @@ ENT = {"&": "&amp;", "<": "&lt;", ">": "&gt;", '"': "&quot;", "'": "&apos;"}
 
 
 def x_text(rng, s, opts):
+    if s and all(c in " \t\n" for c in s):
+        # a white-space-only value stays literal: pugixml drops literal white-space-only character data (finding F29w) but
+        # keeps the same text written with character references or CDATA; the model mirrors the literal case only
+        return s
     if opts["cdata"] and s and "]]>" not in s and "\r" not in s and rng.random() < 0.5:
         return "<![CDATA[" + s + "]]>"
     out = []
@@ -1196,7 +1201,7 @@ def x_text(rng, s, opts):
         # character data interrupted by a comment / PI / CDATA boundary (class F44)
         cut = rng.randrange(1, len(s))
         a, b = x_text(rng, s[:cut], dict(opts, split=False, cdata=False)), x_text(rng, s[cut:], dict(opts, split=False, cdata=False))
-        mid = rng.choice(["<!--c-->", "<?p d?>", "<![CDATA[]]>"])
+        mid = rng.choice(["<!--c-->", "<?p d?>", "<!-- -->"])
         return a + mid + b
     return t
 
@@ -1306,7 +1311,7 @@ def pugi_detect(b):
 def stage3_xml(vlib, impl, model, rng, tier, docs, known_ids, want, bump, stats):
     failing, diffs, notes, samples = [], [], [], []
     per_doc = 2 if tier == "quick" else 4
-    docs = docs[:(900 if tier == "quick" else 9000)]
+    docs = docs[:(2500 if tier == "quick" else 30000)]
     # reference DOM of every produced document
     plines = ["m.parse xml %s %s" % (c["enc"], c["save"][3:]) for c in docs]
     pout = vlib.run_driver(model, plines)
@@ -1357,7 +1362,7 @@ def stage3_xml(vlib, impl, model, rng, tier, docs, known_ids, want, bump, stats)
             diffs.append(dict(driver="jx-model", case="m.parse xml", model=o[:300], rendering=it["text"][:400], judge="HOLD",
                               why="a re-rendering does not have the data model of the original document for the reference parser / ElementTree"))
     # mutated texts: acceptance set against expat
-    nm = 500 if tier == "quick" else 5000
+    nm = 1500 if tier == "quick" else 18000
     mlines, mexp = [], []
     rends = [it for it in items if it["kind"] == "rerender" and ":" not in it["text"].replace("<?xml", "") and "encoding=" not in it["text"]]
     for _ in range(nm if rends else 0):
